@@ -152,11 +152,16 @@ def appendRecord (b : Batch) (r : Rec) (lengthField : Nat) (tsDelta : Int) : Bat
                          else if tsDelta > b.maxTimestampDelta then tsDelta else b.maxTimestampDelta
     records := b.records ++ [⟨r, lengthField, tsDelta⟩] }
 
+/-- the `recordWireLength` of `tryBuffer`: for message-set versions (or an unknown version) a record is sized as
+the larger of its record-batch encoding and its message (`messageSet1Length`) -/
+def recordWireLengthFor (produceVersion : Int) (r : Rec) (numsWire : Nat) : Int :=
+  if produceVersion < 3 then (if messageSet1Length r > numsWire then messageSet1Length r else numsWire) else numsWire
+
 /-- `tryBuffer` (not frozen, `abortOnNewBatch = false`): `none` = not appended -/
 def tryBuffer (b : Batch) (r : Rec) (produceVersion maxBatchBytes : Int) : Option Batch :=
   let nums := calculateRecordNumbers b r
   let bwl := (wireLengthForProduceVersion b produceVersion).1
-  if bwl + numsWireLength nums.1 > maxBatchBytes then none
+  if bwl + recordWireLengthFor produceVersion r (numsWireLength nums.1) > maxBatchBytes then none
   else some (appendRecord b r nums.1 nums.2)
 
 /-- `bufferRecord` on the list of a partition's batches, newest first. Result: the new list and whether
@@ -219,15 +224,22 @@ structure TopicBatches where
 deriving DecidableEq, Repr
 
 /-- what `tryAddBatch` adds to `p.wireLength` for a batch of `topic`; `existing` = number of partitions
-the request already holds for that topic (`none`: topic not in the request yet) -/
-def tryAddBatchLength (produceVersion : Int) (topic : Bytes) (existing : Option Nat) (b : Batch) : Int :=
+the request already holds for that topic (`none`: topic not in the request yet); `ntopics` = `len(p.batches.bs)` -/
+def tryAddBatchLength (produceVersion : Int) (topic : Bytes) (existing : Option Nat) (ntopics : Nat) (b : Batch) : Int :=
   let (bwl, flexible, topicIDs) := wireLengthForProduceVersion b produceVersion
   let bwl := bwl + 4
+  let unknown := decide (produceVersion < 0)
+  let bwl := if flexible || unknown then bwl + 1 else bwl     -- empty tag section after the partition
   match existing with
   | none =>
-    if topicIDs then bwl + (16 + 1)
-    else if flexible then bwl + (uvarlen topic.length + topic.length + 1)
-    else bwl + (2 + topic.length + 4)
+    let bwl :=
+      if topicIDs then bwl + (16 + 1 + 1)
+      else if flexible then bwl + (uvarlen topic.length + topic.length + 1 + 1)
+      else
+        let topicLength : Int := 2 + topic.length + 4
+        let topicLength := if unknown && decide (topicLength < 16 + 1 + 1) then 16 + 1 + 1 else topicLength
+        bwl + topicLength
+    if flexible then bwl + (uvarlen (ntopics + 1) - uvarlen ntopics) else bwl
   | some n =>
     if flexible then bwl + (uvarlen (n + 1) - uvarlen n) else bwl
 
@@ -253,7 +265,7 @@ deriving Repr
 
 /-- `tryAddBatch` (size part): `none` = does not fit -/
 def tryAddBatch (limit produceVersion : Int) (p : ReqState) (topic topicID : Bytes) (pb : PartBatch) : Option ReqState :=
-  let add := tryAddBatchLength produceVersion topic (findParts p.batches topic) pb.batch
+  let add := tryAddBatchLength produceVersion topic (findParts p.batches topic) p.batches.length pb.batch
   if p.wireLength + add > limit then none
   else some { wireLength := p.wireLength + add, batches := addBatch p.batches topic topicID pb,
               anyZeroTopicID := p.anyZeroTopicID || (topicID == List.replicate 16 0#8) }
